@@ -62,9 +62,27 @@ def direct_case(draw):
     return {"kind": "direct", "num_pred": num_pred, "num_ref": num_ref, "tp": tp, "IOU": ious, "ASSD": assd, "RVD": rvd}
 
 
+@st.composite
+def equal_case(draw):
+    """3-6 true positives with identical scores (the standard deviation must be exactly 0 up to rounding of
+    a two-pass computation), as matched or unmatched input."""
+    k = draw(st.integers(3, 6))
+    tp_, tr_ = draw(st.sampled_from([([1, 1, 1, 1, 0, 0], [1, 1, 1, 1, 1, 1]), ([1, 1, 0], [1, 1, 1]), ([0, 1, 1, 1, 1], [1, 1, 1, 1, 0]),
+                                     ([1, 1, 1, 1, 1, 1, 1], [1, 1, 1, 1, 1, 1, 0]), ([1, 1, 1, 0, 0, 0, 0, 0, 0, 0], [1, 1, 1, 1, 1, 1, 1, 1, 1, 1]),
+                                     ([1] * 17 + [0] * 3, [1] * 20), ([1, 1, 1, 1, 1, 1], [0, 1, 1, 1, 1, 1])]))
+    pred, ref = [], []
+    for j in range(k):
+        pred += [a * (j + 1) for a in tp_] + [0, 0]
+        ref += [b * (j + 1) for b in tr_] + [0, 0]
+    it = draw(st.sampled_from(["MATCHED_INSTANCE", "UNMATCHED_INSTANCE", "SEMANTIC"]))
+    return {"kind": "pipeline", "pred": pred, "ref": ref, "dtype": "uint8", "input": it, "backend": None,
+            "matcher": None if it == "MATCHED_INSTANCE" else {"kind": "naive", "metric": "IOU", "thr": {"v": draw(st.sampled_from([0.0, 0.25]))}, "m2o": False},
+            "decision": None, "cldsc": False}
+
+
 def searches(tier):
     n = BUDGET[tier]
-    return [("pipeline", pipeline_case(), n * 3 // 4), ("direct", direct_case(), n // 4)]
+    return [("pipeline", pipeline_case(), n * 3 // 4), ("direct", direct_case(), n // 4), ("equal_scores", equal_case(), max(8, n // 10))]
 
 
 def identities(lr, stats):
@@ -79,8 +97,11 @@ def identities(lr, stats):
     if tp < 0 or fp < 0 or fn < 0:
         raise Violation(f"negative count tp/fp/fn={tp}/{fp}/{fn}")
     if tp == 0:
-        if lr["num_pred_instances"] + lr["num_ref_instances"] > 0 and not H.same_value(lr["rq"], 0.0):
-            raise Violation(f"rq={lr['rq']!r} with tp=0")
+        if lr["num_pred_instances"] + lr["num_ref_instances"] > 0:
+            if not H.same_value(lr["rq"], 0.0):
+                raise Violation(f"rq={lr['rq']!r} with tp=0")
+        elif not (isinstance(lr["rq"], float) and math.isnan(lr["rq"])):
+            raise Violation(f"rq={lr['rq']!r} without any instance: tp/(tp+fp/2+fn/2) is 0/0 (NaN)")
         return
     want_rq = tp / (tp + fp / 2 + fn / 2)
     if not H.same_value(lr["rq"], want_rq, 1e-12):
